@@ -22,7 +22,12 @@ func Seed() uint64 {
 
 // Fork derives an independent generator for case index i so that a case is replayable from (seed, i).
 func Fork(seed uint64, i int) *Rand {
-	r := New(seed ^ (0x9E3779B97F4A7C15 * uint64(i+1)))
+	// Both seed and index go through the splitmix finalizer first: the generator steps its
+	// state by the golden-ratio constant, so deriving the state as seed ^ G*(i+1) would make
+	// the streams of neighbouring indices shifted copies of each other.
+	a := New(seed).U64()
+	b := New(uint64(i) + 0x632BE59BD9B4E019).U64()
+	r := New(a ^ (b<<1 | b>>63))
 	r.U64()
 	return r
 }
